@@ -61,6 +61,13 @@ MpGrid(lazy) == {[ep |-> "Update.parse", b |-> UpdBody(BaseAttrs \o <<144, 14>> 
               a \in AfiSafis, nhl \in {0, 4, 12, 16, 24, 32}, bd \in UNION {Bodies(n) : n \in {0, 1, 2, 3, 4, 5, 8, 12, 13, 16}}}
           \cup {[ep |-> "Update.parse", b |-> U16(0) \o U16(6 + Len(bd)) \o <<144, 15>> \o U16(3 + Len(bd)) \o U16(a[1]) \o <<a[2]>> \o bd] :
               a \in AfiSafis, bd \in UNION {Bodies(n) : n \in {0, 1, 2, 3, 4, 5, 8, 12, 13, 16}}}
+\* every value of the two-octet flowspec NLRI length field 0xf000..0xffff (and the one-octet values next to the switch),
+\* in MP_REACH_NLRI and MP_UNREACH_NLRI, IPv4 and IPv6, followed by one more component
+FsLenGrid(lazy) ==
+   {[ep |-> "Update.parse", b |-> U16(0) \o U16(4 + 3 + 2 + Len(t)) \o <<144, 15>> \o U16(3 + 2 + Len(t)) \o U16(afi) \o <<133>> \o <<hi, lo>> \o t] :
+        afi \in {1, 2}, hi \in 238..255, lo \in 0..255, t \in {<<3, 129, 6, 1, 0>>}}
+   \cup {[ep |-> "Update.parse", b |-> UpdBody(BaseAttrs \o <<144, 14>> \o U16(5 + 2 + Len(t)) \o U16(afi) \o <<133, 0, 0>> \o <<hi, lo>> \o t)] :
+        afi \in {1}, hi \in 238..255, lo \in 0..255, t \in {<<3, 129, 6, 1, 0>>}}
 \* all octet strings of length <= MAXSHORT
 RECURSIVE Strings(_)
 Strings(n) == IF n = 0 THEN {<<>>} ELSE LET p == Strings(n - 1) IN p \cup {Append(s, x) : s \in {q \in p : Len(q) = n - 1}, x \in 0..255}
@@ -68,7 +75,7 @@ ShortInputs(lazy) == {[ep |-> "*", b |-> s] : s \in Strings(MAXSHORT)}
 
 VARIABLE vec
 Vecs == CASE FAMILY = "lsgrid" -> LsGrid(0) [] FAMILY = "sidgrid" -> SidGrid(0) [] FAMILY = "short" -> ShortInputs(0)
-          [] FAMILY = "nestgrid" -> NestGrid(0) [] FAMILY = "capgrid" -> CapGrid(0) [] FAMILY = "attrgrid" -> AttrGrid(0) [] FAMILY = "mpgrid" -> MpGrid(0)
+          [] FAMILY = "nestgrid" -> NestGrid(0) [] FAMILY = "fslen" -> FsLenGrid(0) [] FAMILY = "capgrid" -> CapGrid(0) [] FAMILY = "attrgrid" -> AttrGrid(0) [] FAMILY = "mpgrid" -> MpGrid(0)
 Init == vec \in Vecs
 Next == FALSE /\ UNCHANGED vec
 Emit == PrintT("@W " \o ToJson(vec))
